@@ -571,7 +571,9 @@ func (s *MemoryBackend) ReadStartingWithUser(
 			continue
 		}
 
-		if filter.ObjectIDs != nil && !filter.ObjectIDs.Exists(t.ObjectID) {
+		// an empty set means "no object ID filter", like nil: this is what the SQL
+		// datastores implement and what the iterator cache key assumes.
+		if filter.ObjectIDs != nil && filter.ObjectIDs.Size() > 0 && !filter.ObjectIDs.Exists(t.ObjectID) {
 			continue
 		}
 
